@@ -470,6 +470,10 @@ def login_write_fault(chk):
                 case = {'proto': pv, 'threshold': thr, 'write_error': type(fault).__name__, 'message': text}
                 chk.count('login-write-fault', case, True)
                 e = excs[-1] if excs else None
+                # the model's turn of the loop: the write error is held back, reacting to the disconnect packet raises (code 500)
+                m = run_model([('loop_turn', [[[fault.errno, True]], [[True, [500], True]]])])[0]
+                if m != [2, 500]:
+                    chk.broken('model-loop-turn', 'Model/LoopErr.turn gives %r for a held write error followed by a refusing disconnect packet' % (m,))
                 if ver is None:
                     ok = isinstance(e, LoginDisconnect) and not isinstance(e, VersionMismatch) and text in str(e)
                 else:
